@@ -124,6 +124,13 @@ CLAIMED = {
         "AtomGrid and Becke/Hirshfeld are decided by C05/C06. The 1% clause applies literally (rgrid=None) to sector-radius presets; shell-count presets prescribe a radial size the default grid never has (rgrid=None is refused), they are built with the default kind at the prescribed size and held to a 10% sanity bound only (observed errors in the evidence).",
         "DESIGN.md 3/C07",
     ),
+    "C11": (
+        "exploration",
+        "complete product point dimension 1..3 x lattice menu (0..dim vectors: orthogonal, skewed, negative, long/short, non-unit and negative in 1-D) x wrap x point set (inside / outside / on the cell boundary) x 5 centres x 5 radii (0, small, > cell, 2.7 cell, empty), every query compared as a multiset of (parent index, position) with brute-force enumeration of all lattice translations in a generous box",
+        "Completeness and no-duplication of the image enumeration are decided for every cell shape / centre / radius combination of the alphabet (2.8e3 queries), including spheres larger than the cell and spheres without any image; wrapping is checked against the caller's array and the [0,1) range.",
+        "Images within 1e-12*(1+r) of the sphere surface (incl. exact coincidence at radius 0) are ties, excluded and counted; the brute-force box uses the plane-spacing bound with a margin of 2 cells.",
+        "DESIGN.md 3/C11",
+    ),
 }
 
 NOT_YET = "check not built yet in this session (work in progress; see DESIGN.md section 8 for the order of work)"
